@@ -11,28 +11,6 @@ import (
 	"github.com/Chocapikk/pgread/pgdump"
 )
 
-// normRm: resource-manager names are compared modulo case and punctuation, and the two documented
-// abbreviations (DESIGN.md section 5, interpretation 2).  The Lean side applies the same function.
-func normRm(s string) string {
-	var sb strings.Builder
-	for _, c := range []byte(s) {
-		switch {
-		case c >= 'A' && c <= 'Z':
-			sb.WriteByte(c + 32)
-		case c >= 'a' && c <= 'z', c >= '0' && c <= '9':
-			sb.WriteByte(c)
-		}
-	}
-	n := sb.String()
-	switch n {
-	case "replorigin":
-		return "replicationorigin"
-	case "logicalmsg":
-		return "logicalmessage"
-	}
-	return n
-}
-
 func showBlock(b pgdump.WALBlockRef) string {
 	rel := "~"
 	if b.RelFileNode != nil {
@@ -47,7 +25,7 @@ func showRecord(r pgdump.WALRecord) string {
 		bl[i] = showBlock(b)
 	}
 	return fmt.Sprintf("%d:%d:%d:%d:%d:%d:%d:%s:%s:%s", r.LSN, r.TotalLen, r.TransactionID, r.PrevLSN, r.Info,
-		r.ResourceMgr, r.CRC, normRm(r.RMName), r.Operation, strings.Join(bl, ","))
+		r.ResourceMgr, r.CRC, r.RMName, r.Operation, strings.Join(bl, ","))
 }
 
 func showRecords(rs []pgdump.WALRecord) string {
@@ -118,7 +96,7 @@ func init() {
 		}
 		parts := make([]string, len(rs))
 		for i, r := range rs {
-			parts[i] = fmt.Sprintf("%d.%d=%s/%s", r.ResourceMgr, r.Info, normRm(r.RMName), r.Operation)
+			parts[i] = fmt.Sprintf("%d.%d=%s/%s", r.ResourceMgr, r.Info, r.RMName, r.Operation)
 		}
 		return strings.Join(parts, ",")
 	})
